@@ -515,8 +515,15 @@ def rule_match_order(cx, tier):
                         if k is not None and k[2]:
                             # the patch point is where the iteration over the list starts (the loop may run 0 times)
                             consumed.setdefault(k[2][-1], set()).add(t[1])
-    for need in ("alternative_end", "match_end", "arm_end"):
-        require(need in consumed, f"R-MATCH-ORDER: no patch loop over jumps.{need} found in compile_match_arm")
+    require(consumed, "R-MATCH-ORDER: no patch loop over any jump list found in compile_match_arm")
+    missing = [need for need in ("alternative_end", "match_end", "arm_end") if need not in consumed]
+    for need in missing:
+        r.instances += 1
+        r.add(Finding("R-MATCH-ORDER", fn.qual, f"{need}:no-patch-loop",
+                      f"compile_match_arm has no loop that patches the placeholders filed in jumps.{need}: those jumps keep "
+                      f"offset 0", fn.file, fn.line))
+    if missing:
+        return r
     # the guard and the body: compile_node calls whose node argument comes from the MatchArm's fields
     def node_calls(field):
         out = []
@@ -573,4 +580,92 @@ def rule_match_order(cx, tier):
         if not ok:
             r.add(Finding("R-MATCH-ORDER", fn.qual, slot, msg, fn.file, fn.line))
         r.sample({"check": slot, "ok": ok})
+    return r
+
+
+def rule_match_target(cx, tier):
+    """R-MATCH-TARGET: which list a pattern's jump is filed in agrees with the position of the alternative."""
+    from .narrow import _switch_outcomes
+    r = RuleResult("R-MATCH-TARGET",
+                   "in the routines that compile the patterns of one `or` alternative (those taking MatchArmParameters), "
+                   "a jump is filed in `jumps.arm_end` (skip the arm) only where `params.is_last_alternative` is true and "
+                   "in `jumps.alternative_end` (try the next alternative; for the last alternative that position is the "
+                   "arm's guard / body) only where it is false, and nested calls pass `is_last_alternative` on unchanged")
+    subjects = []
+    for fn in compiler_methods(cx):
+        if any("MatchArmParameters" in (fn.local_tstr(i) or "") for i in range(1, fn.argc + 1)):
+            subjects.append(fn)
+    r.floor("routines taking MatchArmParameters", len(subjects), 2)
+    want = {"arm_end": "true", "alternative_end": "false"}
+    per_field = {"arm_end": 0, "alternative_end": 0}
+    for fn in subjects:
+        cfg = cx.cfg(fn)
+        du = cx.du(fn)
+        params = [i for i in range(1, fn.argc + 1) if "MatchArmParameters" in (fn.local_tstr(i) or "")]
+        # switches on the parameter's flag
+        ila = []
+        for b in fn.blocks:
+            so = _switch_outcomes(cx, fn, b)
+            for (l, te, fe) in so or []:
+                d = du.single_def(l)
+                if d is None or d[2] != "assign" or d[3][0] != "use":
+                    continue
+                pl = op_place(d[3][1])
+                if pl is not None and pl[0] in params and place_fields(pl) == ["is_last_alternative"]:
+                    ila.append((b.idx, te, fe))
+
+        def side(site):
+            out = set()
+            for (sb, te, fe) in ila:
+                for name, es in (("true", te), ("false", fe)):
+                    if any((e == site or cfg.dominates(e, site)) and set(cfg.pred[e]) <= {sb} for e in es):
+                        out.add(name)
+            return out
+        for b in fn.blocks:
+            if b.cleanup:
+                continue
+            for stt in b.stmts:
+                if stt[0] != "a" or stt[2][0] != "ref" or stt[2][1] not in ("mut", "two_phase", "unique"):
+                    continue
+                fs = place_fields(stt[2][2])
+                f = fs[-1] if fs else None
+                if f not in want:
+                    continue
+                r.instances += 1
+                r.nontrivial += 1
+                per_field[f] += 1
+                s = side(b.idx)
+                ok = s == {want[f]}
+                r.sample({"fn": fn.qual.rsplit("::", 1)[-1], "list": f, "line": line_of(fn, b.idx), "on": sorted(s)})
+                if not ok:
+                    r.add(Finding("R-MATCH-TARGET", fn.qual, f"{f}:not-on-is_last_alternative={want[f]}",
+                                  f"a jump is filed in jumps.{f} where `params.is_last_alternative` is not known to be "
+                                  f"{want[f]} (on: {sorted(s) or 'no test of the flag'}): " +
+                                  ("a mismatch in a non-last alternative skips the remaining alternatives"
+                                   if f == "arm_end" else
+                                   "a mismatch in the last alternative lands on the arm's guard / body, so the arm is "
+                                   "selected despite the mismatch"), fn.file, line_of(fn, b.idx)))
+            # nested parameter structs keep the flag
+            for stt in b.stmts:
+                if stt[0] == "a" and stt[2][0] == "agg" and stt[2][1][0] == "adt" and \
+                        fn.crate.defs[stt[2][1][1]].endswith("MatchArmParameters"):
+                    r.instances += 1
+                    ops = stt[2][2]
+                    ok = False
+                    for o in ops:
+                        pl = op_place(o)
+                        for _ in range(4):
+                            if pl is None or pl[1]:
+                                break
+                            d = du.single_def(pl[0])
+                            pl = op_place(d[3][1]) if d is not None and d[2] == "assign" and d[3][0] == "use" else None
+                        if pl is not None and pl[0] in params and place_fields(pl) == ["is_last_alternative"]:
+                            ok = True
+                    if not ok:
+                        r.add(Finding("R-MATCH-TARGET", fn.qual, "nested:is_last_alternative-not-forwarded",
+                                      "a nested MatchArmParameters is built without forwarding params.is_last_alternative",
+                                      fn.file, line_of(fn, b.idx)))
+    r.floor("filings in jumps.arm_end", per_field["arm_end"], 5)
+    r.floor("filings in jumps.alternative_end", per_field["alternative_end"], 5)
+    r.analysed = {"routines": [f.qual.rsplit("::", 1)[-1] for f in subjects], **per_field}
     return r
